@@ -22,6 +22,7 @@ import (
 	"time"
 
 	"github.com/youchainhq/go-youchain/common"
+	"github.com/youchainhq/go-youchain/core"
 	"github.com/youchainhq/go-youchain/core/types"
 	"github.com/youchainhq/go-youchain/you/downloader"
 	"github.com/youchainhq/go-youchain/youdb"
@@ -36,6 +37,7 @@ type stubPeer struct {
 	limit int32 // answer this many requests, then stay silent (-1 = all)
 	seen  int32
 	lack  map[common.Hash]bool // nodes this peer does not have: it answers, but without them
+	more  []*Src               // further sources this peer can answer from
 }
 
 func (p *stubPeer) Head() (common.Hash, *big.Int)                                { return common.Hash{}, new(big.Int) }
@@ -57,6 +59,13 @@ func (p *stubPeer) RequestNodeData(kind types.TrieKind, hashes []common.Hash) er
 		}
 		if b, err := p.src.db.Get(h[:]); err == nil {
 			blobs = append(blobs, b)
+			continue
+		}
+		for _, s := range p.more {
+			if b, err := s.db.Get(h[:]); err == nil {
+				blobs = append(blobs, b)
+				break
+			}
 		}
 	}
 	return p.l.DeliverNodeData(p.id, blobs)
@@ -154,6 +163,10 @@ func (e *launchEnv) launch(entry string) (chan error, *int32) {
 			res <- e.l.FetchVldTrie(e.src.root)
 		case "fetchStakingTrie":
 			res <- e.l.FetchStakingTrie(e.src.root)
+		case "fetchCht":
+			res <- e.l.FetchCht(e.src.root)
+		case "fetchBlt":
+			res <- e.l.FetchBlt(e.src.root)
 		default: // syncState + Wait
 			t := e.l.SyncState(e.src.root)
 			err := t.Wait()
@@ -403,6 +416,108 @@ func (c *launchCampaign) history(name, entry string, in *CaseIn, dst *youdb.MemD
 	return dst
 }
 
+// ---- several syncs of different kinds on ONE downloader ---------------------------
+// core.BlockChain.TrieBackingDb: state / validator / staking tries live in the plain
+// chain database, the CHT and the BLT in prefixed tables.  Oracle: a sync that
+// returns nil left its whole trie readable from the namespace the chain reads that
+// kind from, and wrote nothing outside that namespace.
+
+func namespaceOf(entry string) string {
+	switch entry {
+	case "fetchCht":
+		return downloader.VerifC19ChtPrefix
+	case "fetchBlt":
+		return downloader.VerifC19BltPrefix
+	}
+	return ""
+}
+
+// view of one namespace of the database as a database of its own
+func namespaceView(db *youdb.MemDatabase, prefix string) *youdb.MemDatabase {
+	v := youdb.NewMemDatabase()
+	for _, k := range db.Keys() {
+		if prefix == "" {
+			if len(k) == common.HashLength {
+				b, _ := db.Get(k)
+				v.Put(k, b)
+			}
+		} else if strings.HasPrefix(string(k), prefix) && len(k) == len(prefix)+common.HashLength {
+			b, _ := db.Get(k)
+			v.Put(k[len(prefix):], b)
+		}
+	}
+	return v
+}
+
+func multiKindSource(tag int) *CaseIn {
+	var entries [][2]string
+	for i := 0; i < 24; i++ {
+		k := fmt.Sprintf("%016x", uint64(i+1)*0x0101010101010101+uint64(tag))
+		entries = append(entries, [2]string{k, hx([]byte(fmt.Sprintf("value-%d-long-enough-to-be-a-hashed-node-%03d", tag, i)))})
+	}
+	return &CaseIn{Mode: "trie", Entries: entries}
+}
+
+var multiKindOrders = [][]string{
+	{"FetchVldTrie", "fetchCht"},
+	{"fetchCht", "FetchVldTrie"},
+	{"fetchStakingTrie", "fetchBlt"},
+	{"fetchBlt", "fetchCht", "syncState+Wait", "fetchBlt"},
+}
+
+func (c *launchCampaign) multiKind(order []string) {
+	if downloader.VerifC19ChtPrefix != core.ChtTablePrefix || downloader.VerifC19BltPrefix != core.BloomTrieTablePrefix {
+		panic("translator: the table prefixes of the hook's TrieBackingDb differ from core.ChtTablePrefix / core.BloomTrieTablePrefix")
+	}
+	name := "multi_kind_" + strings.Join(order, "_then_")
+	dst := youdb.NewMemDatabase()
+	var srcs []*Src
+	var ins []*CaseIn
+	for i, entry := range order {
+		in := multiKindSource(i + 1)
+		if entry == "syncState+Wait" {
+			in = launchSources()[1]
+		}
+		ins = append(ins, in)
+		srcs = append(srcs, buildSource(in))
+	}
+	e := newLaunchEnv(ins[0], srcs[0], dst)
+	defer e.l.Quit()
+	e.startFetcher()
+	e.l.RegisterPeer("p0", &stubPeer{id: "p0", l: e.l, src: srcs[0], limit: -1, more: srcs[1:]})
+	e.log("honest peer p0 registered on ONE downloader; syncs: " + strings.Join(order, ", "))
+	for i, entry := range order {
+		before := map[string]bool{}
+		for _, k := range dst.Keys() {
+			before[string(k)] = true
+		}
+		e.src, e.in = srcs[i], ins[i]
+		res, pend := e.launch(entry)
+		out := wait(res, 10*time.Second)
+		ns := namespaceOf(entry)
+		// nothing written outside the namespace of this kind
+		for _, k := range dst.Keys() {
+			if before[string(k)] || string(k) == "TrieSync" {
+				continue
+			}
+			ok := len(k) == common.HashLength
+			if ns != "" {
+				ok = strings.HasPrefix(string(k), ns) && len(k) == len(ns)+common.HashLength
+			}
+			if !ok {
+				c.hits = append(c.hits, launchHit{"written-outside-the-namespace-of-the-trie-kind",
+					fmt.Sprintf("sync %d (%s) of history '%s' wrote key %x, which is not in the database the chain reads that kind from (prefix %q)", i+1, entry, name, k, ns),
+					name, entry, ins[i], append([]string{}, e.steps...)})
+				c.res.Count("oracle_written-outside-the-namespace-of-the-trie-kind")
+				break
+			}
+		}
+		// the usual oracle, on the namespace the chain reads this kind from
+		view := &launchEnv{src: srcs[i], in: ins[i], dst: namespaceView(dst, ns), l: e.l, fetcher: e.fetcher, quit: e.quit, cancel: e.cancel, steps: e.steps}
+		c.judgeX(name, entry, view, out, pend, true, "nil")
+	}
+}
+
 var launchHistories = []struct {
 	name string
 	reps int
@@ -465,6 +580,9 @@ func runLaunchCampaign(res *vf.Result, only, onlyEntry string, onlySrc *CaseIn) 
 			if only != "" && reps < 8 {
 				reps = 8
 			}
+			if h.name == "multi_kind" {
+				continue
+			}
 			for i := 0; i < reps; i++ {
 				entry := entryFor(in, k)
 				if onlyEntry != "" {
@@ -473,6 +591,14 @@ func runLaunchCampaign(res *vf.Result, only, onlyEntry string, onlySrc *CaseIn) 
 				k++
 				c.history(h.name, entry, in, nil)
 			}
+		}
+	}
+	if only == "" || strings.HasPrefix(only, "multi_kind") {
+		for _, order := range multiKindOrders {
+			if only != "" && only != "multi_kind_"+strings.Join(order, "_then_") {
+				continue
+			}
+			c.multiKind(order)
 		}
 	}
 	return c
